@@ -83,8 +83,10 @@ type c03Case struct {
 	entityID   bool
 	validator  int // 0 none, 1 returns nil, 2 returns error
 	curDiffers bool
-	curForm    int // 0 absolute received-at URL, 1 origin-form (path only, as net/http servers see it), 2 origin-form with query
-	entry      int // 0 xml 1 post 2 artifact(signed AR) 3 artifact(unsigned AR)
+	allowIDP   bool  // AllowIDPInitiated: waives the request-ID rule, nothing else
+	methods    []int // confirmation Method per confirmation (index into confMethods)
+	curForm    int   // 0 absolute received-at URL, 1 origin-form (path only, as net/http servers see it), 2 origin-form with query
+	entry      int   // 0 xml 1 post 2 artifact(signed AR) 3 artifact(unsigned AR)
 	arIssuer   fieldVal
 	arStatus   fieldVal
 }
@@ -98,8 +100,8 @@ func (k c03Case) String() string {
 		}
 		return "[" + strings.Join(s, ",") + "]"
 	}
-	return fmt.Sprintf("rIss=%s aIss=%s recip=%s aud=%s dest=%s status=%s signedResp=%v entityID=%v validator=%d curDiffers=%v curForm=%d entry=%d arIss=%s arStatus=%s",
-		fv(k.respIssuer), fv(k.aIssuer), l(k.recips), l(k.auds), fv(k.dest), fv(k.status), k.signedResp, k.entityID, k.validator, k.curDiffers, k.curForm, k.entry, fv(k.arIssuer), fv(k.arStatus))
+	return fmt.Sprintf("rIss=%s aIss=%s recip=%s aud=%s dest=%s status=%s signedResp=%v entityID=%v validator=%d curDiffers=%v curForm=%d entry=%d arIss=%s arStatus=%s allowIDP=%v methods=%v",
+		fv(k.respIssuer), fv(k.aIssuer), l(k.recips), l(k.auds), fv(k.dest), fv(k.status), k.signedResp, k.entityID, k.validator, k.curDiffers, k.curForm, k.entry, fv(k.arIssuer), fv(k.arStatus), k.allowIDP, k.methods)
 }
 
 const c03EntityID = "urn:example:sp-entity"
@@ -150,6 +152,8 @@ func c03Base(c *core.Ctx) c03Case {
 	if !k.signedResp && c.Rng.Intn(3) == 0 {
 		k.dest = fieldVal{kind: "absent", absent: true}
 	}
+	k.allowIDP = c.Rng.Intn(4) == 0
+	k.methods = pickConfMethods(c.Rng, len(k.recips))
 	k.status = ok(saml.StatusSuccess)
 	k.arIssuer = ok(so.IDPEntity)
 	k.arStatus = ok(saml.StatusSuccess)
@@ -282,6 +286,7 @@ func c03Run(c *core.Ctx, o *so.Oracle, k c03Case) {
 	if k.entityID {
 		sp.EntityID = c03EntityID
 	}
+	sp.AllowIDPInitiated = k.allowIDP
 	validatorCalls := 0
 	switch k.validator {
 	case 1:
@@ -309,6 +314,7 @@ func c03Run(c *core.Ctx, o *so.Oracle, k c03Case) {
 	for i, scd := range ael.FindElements("./Subject/SubjectConfirmation/SubjectConfirmationData") {
 		setOrRemoveAttr(scd, "Recipient", k.recips[i])
 	}
+	setConfMethods(ael, k.methods)
 	for i, ar := range ael.FindElements("./Conditions/AudienceRestriction") {
 		setOrRemoveText(ar, "./Audience", k.auds[i])
 	}
